@@ -39,6 +39,7 @@ class GenOpts:
         self.loose = False           # C02/C19: target lists the validator has to judge
         self.assign_weight = 3        # weight of <assign> among executable content (log 4, raise 3)
         self.eventless_weight = 2     # weight of eventless transitions (event descriptor: 8)
+        self.extra_faults = ('send_badparam', 'send_badparam_runtime', 'send_badeventexpr', 'send_baddelayexpr', 'log_runtime', 'foreach_badarray')
         self.deep_initial_weight = 2   # weight of a deep 'initial' attribute (first child 4, child attribute 3, <initial> 2)
         self.eventless_targeted = False  # eventless transitions always have a target (a targetless one can only loop)
         self.__dict__.update(kw)
@@ -134,7 +135,7 @@ def exec_blocks(draw, o, vars_, state_ids, label, depth=0, maxn=3):
             out.append(If(branches))
         elif k == 'fault':
             which = draw(st.sampled_from(['log_badexpr', 'assign_badexpr', 'assign_undeclared', 'assign_sysvar',
-                                          'send_badtype', 'send_badtarget', 'if_badcond']))
+                                          'send_badtype', 'send_badtarget', 'if_badcond'] + (list(o.extra_faults) if o.faults else [])))
             f = Fault(which)
             f.var = vars_[0] if vars_ else 'x'
             out.append(f)
@@ -513,6 +514,87 @@ def delayed_charts(draw, datamodel='null'):
         if draw(st.integers(0, 3)) == 0:
             s.transitions.append(Trans(events=['c'], content=[Log("C" + s.id, ('c', 1))] if datamodel != 'null' else []))
     return Chart(State('scxml', children=states), datamodel, 'early', [])
+
+
+@st.composite
+def parallel_final_charts(draw, datamodel='lua'):
+    """completion of parallel states: 2-3 regions, each a compound state with one or two working states and a <final>, some
+    regions (and sometimes the parallel state itself) own a shallow or deep <history>; events a / b / c move the regions
+    into their finals (in any order, some only after a detour outside through the history); done.state.<region> and
+    done.state.<parallel> are observed by transitions with a log"""
+    nreg = draw(st.integers(2, 3))
+    regions = []
+    hist_n = [0]
+
+    def hist(parent_children_ids, deep_ok=True):
+        h = State('history', id="h%d" % hist_n[0])
+        hist_n[0] += 1
+        h.hist_type = draw(st.sampled_from(['shallow', 'deep'] if deep_ok else ['shallow']))
+        h.transitions = [Trans(targets=[parent_children_ids[0]])]
+        h.transitions[0].kind = 'history'
+        return h
+    evs = ['a', 'b', 'c']
+    for r in range(nreg):
+        w1 = State('state', id="r%dw" % r)
+        kids = [w1]
+        fin = State('final', id="r%df" % r)
+        if draw(st.booleans()):
+            w2 = State('state', id="r%dv" % r)
+            w1.transitions.append(Trans(events=[draw(st.sampled_from(evs))], targets=[w2.id]))
+            w2.transitions.append(Trans(events=[draw(st.sampled_from(evs))], targets=[fin.id]))
+            kids.append(w2)
+        else:
+            w1.transitions.append(Trans(events=[draw(st.sampled_from(evs))], targets=[fin.id]))
+        kids.append(fin)
+        reg = State('state', id="r%d" % r, children=kids)
+        if draw(st.integers(0, 2)) == 0:
+            reg.children.insert(draw(st.integers(0, 1)) * len(reg.children), hist([k.id for k in kids], deep_ok=False))
+        regions.append(reg)
+    par = State('parallel', id="p", children=regions)
+    phist = None
+    if draw(st.integers(0, 3)) == 0:
+        phist = hist([regions[0].id])
+        phist.transitions[0].targets = [r.id for r in regions][:1]
+        par.children.append(phist)
+    # leaving and coming back through a history (or plainly)
+    out = State('state', id="out")
+    back_targets = ["p"] + [h.id for reg in regions for h in reg.children if h.kind == 'history'] + ([phist.id] if phist else [])
+    out.transitions.append(Trans(events=['back'], targets=[draw(st.sampled_from(back_targets))]))
+    par.transitions.append(Trans(events=['leave'], targets=['out']))
+    done = State('state', id="done")
+    log_n = [0]
+
+    def lg(tag):
+        log_n[0] += 1
+        return [Log("%s%d" % (tag, log_n[0]), ('c', log_n[0]))] if datamodel != 'null' else []
+    par.transitions.append(Trans(events=['done.state.p'], targets=['done'], content=lg("DP")))
+    for reg in regions:
+        if draw(st.booleans()):
+            par.transitions.append(Trans(events=['done.state.' + reg.id], content=lg("DR")))
+    root = State('scxml', children=[par, out, done] if draw(st.booleans()) else [out, par, done], initial_attr=["p"])
+    return Chart(root, datamodel, 'early', [])
+
+
+@st.composite
+def descriptor_charts(draw, datamodel='promela'):
+    """event descriptor resolution end to end: a parent state with 1-3 transitions whose descriptor lists come from a rich pool
+    (exact names, '.*' and '.' suffixes, prefixes, near misses, lists, '*'), each leading to a state of its own; the child
+    state raises 1-2 event names on entry. The handlers precede the raising content in document order (static resolvers see
+    the descriptor first)."""
+    descs = [['a'], ['a.*'], ['a.'], ['a.b'], ['a.b.*'], ['ab'], ['ab.*'], ['b', 'a.*'], ['a.b', 'c'], ['c.*'], ['*'], ['b.'], ['a.b.c'], ['b']]
+    names = ['a', 'a.b', 'a.b.c', 'ab', 'b', 'c', 'a.c', 'ab.c', 'b.a']
+    nt = draw(st.integers(1, 3))
+    targets = [State('state', id="f%d" % i) for i in range(nt)]
+    child = State('state', id="s0")
+    child.onentry = [[Raise(draw(st.sampled_from(names))) for _ in range(draw(st.integers(1, 2)))]]
+    parent = State('state', id="p", children=[child])
+    for i in range(nt):
+        parent.transitions.append(Trans(events=list(draw(st.sampled_from(descs))), targets=[targets[i].id]))
+    for t in targets:
+        if draw(st.booleans()):
+            t.transitions.append(Trans(events=list(draw(st.sampled_from(descs))), targets=["p"]))
+    root = State('scxml', children=[parent] + targets)
+    return Chart(root, datamodel, 'early', [])
 
 
 def history_profile():
